@@ -135,6 +135,11 @@ func (g *GoFakeS3) hostBucketMiddleware(handler http.Handler) http.Handler {
 	return http.HandlerFunc(func(w http.ResponseWriter, rq *http.Request) {
 		parts := strings.SplitN(rq.Host, ".", 2)
 		bucket := parts[0]
+		if bucket == "" {
+			// No label to take a bucket from: the request is path-style.
+			handler.ServeHTTP(w, rq)
+			return
+		}
 
 		p := rq.URL.Path
 		rq.URL.Path = "/" + bucket
@@ -161,7 +166,7 @@ func (g *GoFakeS3) hostBucketBaseMiddleware(handler http.Handler) http.Handler {
 				continue
 			}
 			bucket = host[:len(host)-len(base)]
-			if idx := strings.IndexByte(bucket, '.'); idx >= 0 {
+			if idx := strings.IndexByte(bucket, '.'); idx >= 0 || bucket == "" {
 				continue
 			}
 			return bucket, true
